@@ -11,7 +11,7 @@ A *history* is a JSON list of operations::
     ["set", hid, out|null, in|null]          set_seq_num(handle[, next_num_out][, next_num_in])
     ["reset", hid]                           set_seq_num(handle, next_num_in=1, next_num_out=1)
     ["get", hid, dir, seq]                   recover_msg
-    ["range", hid, dir, start, end]          recover_messages
+    ["range", hid, dir, start, end(, "ss"|"si"|"is")]  recover_messages (optionally with numeric-string bounds)
     ["all", [hid,..]|null, dir|null, "obj"|"key"]   get_all_msgs
     ["sessions"]                             sessions()
     ["reopen"]                               del journaler; Journaler(same file)
@@ -228,6 +228,9 @@ def generate(cfg):
             else:
                 a, b = rng.choice((-1, -5)), rng.choice(pts)
             op = ["range", hid, d, a, b]
+            if rng.random() < 0.2:
+                # the bounds are typed `int | str`: numeric strings (both, or one of them)
+                op.append(rng.choice(("ss", "ss", "si", "is")))
         elif kind == "all":
             r = rng.random()
             if r < 0.35 or not have:
@@ -499,7 +502,11 @@ class Executor:
             ok, r = _call(j.recover_msg, self.h[op[1]], DIRS[op[2]], op[3])
             return ("ok", r) if ok else r
         if k == "range":
-            ok, r = _call(j.recover_messages, self.h[op[1]], DIRS[op[2]], op[3], op[4])
+            a, b = op[3], op[4]
+            if len(op) > 5:
+                a = str(a) if op[5][0] == "s" else a
+                b = str(b) if op[5][1] == "s" else b
+            ok, r = _call(j.recover_messages, self.h[op[1]], DIRS[op[2]], a, b)
             return ("ok", r) if ok else r
         if k == "all":
             hs = op[1]
